@@ -672,11 +672,17 @@ def assemble(unit_dir, mutate=None, canary=False):
     item_ranges = []
     out.canaried = []
     pending = None  # (kind, name) of a template fn whose body-opening brace has not been seen yet
+    skip_next_fn = False
     for c in chunks:
         if c[0] == "text":
             line = c[1]
             if canary:
                 m = FN_HEAD_RE.match(line)
+                if "external_body" in line:
+                    skip_next_fn = True
+                if m and skip_next_fn:
+                    skip_next_fn = False
+                    m = None
                 if m and " spec fn " not in (" " + line) and not line.rstrip().endswith(";") and not line.rstrip().endswith("}"):
                     pending = (m.group(1) or "exec", m.group(2))
                     if line.rstrip().endswith("{"):
